@@ -155,8 +155,12 @@ func check(c Case) (kind, what string, classes []string) {
 
 var dstTypes = []string{"RGBA64", "RGBA", "NRGBA", "NRGBA64"}
 
+// every draw.Image type of the standard library is a legal destination: the pixel written is the destination
+// colour model's conversion of the transformed colour (grey, alpha-only, CMYK and nearest-palette-entry included)
+var allDstTypes = []string{"RGBA64", "RGBA", "NRGBA", "NRGBA64", "RGBA64", "RGBA", "Gray", "Gray16", "Alpha", "Alpha16", "CMYK", "Paletted"}
+
 func genDst(rt *rapid.T, src img.Spec) img.Spec {
-	d := img.Spec{Type: rapid.SampledFrom(dstTypes).Draw(rt, "dtype")}
+	d := img.Spec{Type: rapid.SampledFrom(allDstTypes).Draw(rt, "dtype"), PalN: 16}
 	w, h := src.Rect[2]-src.Rect[0], src.Rect[3]-src.Rect[1]
 	dw, dh := rapid.IntRange(0, 3).Draw(rt, "dw"), rapid.IntRange(0, 3).Draw(rt, "dh")
 	ox, oy := rapid.IntRange(-6, 6).Draw(rt, "dx0"), rapid.IntRange(-6, 6).Draw(rt, "dy0")
@@ -184,18 +188,18 @@ func TestC10(t *testing.T) {
 		fmt.Println("REPLAY case passed")
 		return
 	}
-	ev.Rule("rapid: source of every standard image type (incl. opaque wrapper, sub-images, negative origins, empty/1xN/Nx1, a quarter with 10..40 rows), destination in {RGBA64, RGBA, NRGBA, NRGBA64, opaque wrapper} with its own origin, size = source + (0..3, 0..3), optionally a sub-image of a sentinel-filled parent; parallelism in {1,2,3,7,16,rows+5}; transform in {Linearise,Encode} x 4 spaces + TransformImageColor with an injective channel-rotating function; in-place for the draw.Image types. Also a fixed cross product of source types x destination types x parallelism x transforms on awkward geometry, and banners (1-3 rows of 129..20000 pixels, widths around powers of two, sub-image destinations, in-place; a tenth of the rapid images and a sweep over every type pair). Oracle: Set()-based model on a clone, whole parent buffers compared byte for byte. non-trivial = distinct case with differing origins, a sub-image, parallelism>1 with >=2 rows, a concrete fast path, or in-place")
+	ev.Rule("rapid: source of every standard image type (incl. opaque wrapper, sub-images, negative origins, empty/1xN/Nx1, a quarter with 10..40 rows), destination of every standard draw.Image type (RGBA64, RGBA, NRGBA, NRGBA64, Gray, Gray16, Alpha, Alpha16, CMYK, Paletted) or an opaque wrapper with its own origin, size = source + (0..3, 0..3), optionally a sub-image of a sentinel-filled parent; parallelism in {1,2,3,7,16,rows+5}; transform in {Linearise,Encode} x 4 spaces + TransformImageColor with an injective channel-rotating function; in-place for the draw.Image types. Also a fixed cross product of source types x destination types x parallelism x transforms on awkward geometry, and banners (1-3 rows of 129..20000 pixels, widths around powers of two, sub-image destinations, in-place; a tenth of the rapid images and a sweep over every type pair). Oracle: Set()-based model on a clone, whole parent buffers compared byte for byte. non-trivial = distinct case with differing origins, a sub-image, parallelism>1 with >=2 rows, a concrete fast path, or in-place")
 	ev.Assume("the per-colour functions themselves are checked by C01/C02/C14; destination at least as large as the source (the documented precondition)")
 	// fixed cross product
 	n := 0
 	for _, st := range img.Types {
-		for _, dtyp := range dstTypes {
+		for _, dtyp := range allDstTypes[2:] {
 			for _, dwrap := range []bool{false, true} {
 				for pi, par := range []int{1, 3, 16, 28} {
 					tr := Transforms[(n+pi)%len(Transforms)]
 					n++
 					s := img.Spec{Type: st, Ratio: n % 6, Rect: [4]int{2, 4, 9, 27}, Parent: [4]int{0, 1, 11, 29}, Fill: "prng", Seed: ev.Seed() + uint64(n), PalN: 255, Wrap: n%5 == 0}
-					d := img.Spec{Type: dtyp, Rect: [4]int{-3, 6, 6, 30}, Parent: [4]int{-5, 4, 7, 33}, Fill: "ramp", Seed: 7, Wrap: dwrap}
+					d := img.Spec{Type: dtyp, Rect: [4]int{-3, 6, 6, 30}, Parent: [4]int{-5, 4, 7, 33}, Fill: "ramp", Seed: 7, Wrap: dwrap, PalN: 16}
 					c := Case{Src: s, Dst: d, Par: par, Transform: tr}
 					ev.Eval(1)
 					k, w, cl := check(c)
